@@ -478,4 +478,5 @@ def rule_memo18(repo, tier):
 
 
 def rules(repo, tier):
-    return [rule_idx(repo, tier), rule_sign(repo, tier), rule_fwd(repo, tier), rule_memo18(repo, tier), rule_self(repo, tier), rule_rankidx(repo, tier), rule_count(repo, tier)]
+    from ..optional import rule_optional
+    return [rule_idx(repo, tier), rule_sign(repo, tier), rule_fwd(repo, tier), rule_memo18(repo, tier), rule_self(repo, tier), rule_rankidx(repo, tier), rule_count(repo, tier), rule_optional(repo, 'C18.OPT', ['pypose.function.geometry'])]
